@@ -5,14 +5,14 @@ CONSTANTS
   WithSession = TRUE
   WithRefresh = TRUE
   FixSessionWait = TRUE
-  FixRefreshWait = TRUE
-  FixProcQuit = FALSE
+  FixRefreshWait = FALSE
+  FixProcQuit = TRUE
   FixUpstreamQuitFirst = FALSE
   FixSignalBeforeWait = FALSE
-  ClientQCap = 4
+  ClientQCap = 2
   NReq = 3
   SessQCap = 1
   MaxRounds = 2
-INVARIANTS TypeOK NoStuckStop AfterStopAllReleased
-PROPERTIES StopReturns
+CONSTRAINT RecordWindows
+POSTCONDITION FullQueueWindowsReached
 CHECK_DEADLOCK FALSE
